@@ -553,11 +553,12 @@ func (root *Root) resolveField(
 
 	if field.ConType == nil {
 		field.ConType = t
-		ea = append(ea, field.sortArgs()...)
-		if 0 < len(ea) {
-			Errors(ea).in(field.key())
-			return
-		}
+	}
+	// Checked on every evaluation, not only the first, so that evaluating a
+	// parsed request again gives the same response.
+	if ea = field.sortArgs(t); 0 < len(ea) {
+		Errors(ea).in(field.key())
+		return
 	}
 	const queryType = "Query"
 	var ea2 []error
